@@ -358,7 +358,10 @@ def run_scenario(sc: dict, chooser: Callable[[Live, int], Any] | None = None, ma
             _, i, r = op
             live.modes[(i, r)] = "ok"
             live.gates[(i, r)].set()
-            arm_spy(i, r, post)
+            # (a replayed op list may name a run that is not in its step on THIS implementation: its task would
+            # never end and the spy would keep the loop busy for ever -- then it is a plain open)
+            if r in live.executing.get(i, []):
+                arm_spy(i, r, post)
         elif kind == "drop":
             i = op[1]
             for key in [k for k in live.handlers if k[0] == i]:
@@ -373,10 +376,13 @@ def run_scenario(sc: dict, chooser: Callable[[Live, int], Any] | None = None, ma
     def arm_spy(i: int, r: int, post: list) -> None:
         loop = live.loop
         target_task = live.tasks[(i, r)]
-        state: dict[str, Any] = {"fired": None}
+        state: dict[str, Any] = {"fired": None, "spins": 0}
         post.append(("snipe", i, r, state))
 
         def spy() -> None:
+            state["spins"] += 1
+            if state["spins"] > 20000:  # safety net: never keep the loop from becoming quiescent
+                return
             sem = live.sem_of(i)
             if sem is not None and sem._waiters:
                 for fut in sem._waiters:
